@@ -315,6 +315,14 @@ class Run:
     other values in the workflow, which say nothing about the command that is running.
     """
 
+    launched_decl: tuple | None = attrs.field(init=False, default=None)
+    """The declared inputs, variables, outputs and volatile outputs when the command started.
+
+    A step that is declared again with other paths while it runs keeps its row and its command.
+    The difference with this record tells the executor that the verdict of the command
+    belongs to a declaration that is gone.
+    """
+
     out_missing: list[str] = attrs.field(init=False, factory=list)
     """List of expected output files that were not created."""
 
